@@ -8,7 +8,7 @@ import tempfile
 from decimal import Decimal
 
 from engine import SPEC, gen_states, pool_map
-from readers import join_lines, run_cli, write_text, workdir
+from readers import read_out, join_lines, run_cli, write_text, workdir
 
 POOL = json.load(open(os.path.join(SPEC, "data", "stat_pool.json")))
 DENS = [1, 2, 4, 5, 8, 10, 16, 20, 25, 40, 50, 80, 100, 125, 200, 250, 400, 500]
@@ -65,7 +65,7 @@ def run_case(job):
         write_text(gaf, join_lines([gaf_line(r, k) for k, r in enumerate(recs)], cid), storage, block=200)
         out = os.path.join(d, "report.txt")
         r = run_cli(["stat", gaf, "-o", out] + (["--cigar"] if cigar else []))
-        txt = open(out).read() if os.path.exists(out) else ""
+        txt = read_out(out) if os.path.exists(out) else ""
         return {"id": cid, "file": recs, "cigar": cigar, "status": r["status"] if r["status"] == "ok" else r["status"] + ":" + r["exc"][:40],
                 "o": parse_report(txt), "storage": storage}
     finally:
